@@ -327,6 +327,16 @@ var (
 )
 
 func drawAnyPrefix(t *rapid.T) string {
+	if rapid.IntRange(0, 3).Draw(t, "charprefix") == 0 {
+		// every printable ASCII character (and a few others) gets its turn in the prefix: whether a
+		// character may appear between brackets is decided per character by encoder and decoder
+		n := rapid.IntRange(1, 4).Draw(t, "prefixlen")
+		b := []byte("h")
+		for i := 0; i < n; i++ {
+			b = append(b, byte(rapid.IntRange(0x20, 0x7e).Draw(t, "prefixchar")))
+		}
+		return string(b) + "/"
+	}
 	if rapid.IntRange(0, 5).Draw(t, "oddprefix") == 0 {
 		return rapid.SampledFrom(anyOddPrefixes).Draw(t, "prefix")
 	}
